@@ -9,6 +9,15 @@
 #define A_INV (cv_exc_pending == 0 && (gh_tok == TOK_OTHER || gh_tok == TOK_SPENT) && ((*gh_F_slot == F_DIS) == (gh_tok == TOK_SPENT)) && *gh_F_slot != F_INS && \
                (*gh_F_slot == F_DIS ==> (gh_rel_slot & V_PAYLOAD)))
 
+/* awaiter::subscribe(chain): the unconditional push (used by signal, C15).  It is not called on a future slot on the unchanged tree; the
+ * loop contract is stated so that a refactoring which routes a future subscription through it is DECIDED (the protocol primitive then
+ * reports "subscription pushed onto the ready marker") instead of running into the unwinding limit. */
+#ifdef CV_HAS_aw_subscribe
+#define CV_LOOP_aw_subscribe_0 \
+  __CPROVER_assigns(CV_LOOP_LOCALS_aw_subscribe_0, this1->_next, *gh_F_slot, PROTF_GHOSTS) \
+  __CPROVER_loop_invariant(A_INV && gh_my_node == __CPROVER_loop_entry(gh_my_node) && gh_node_own == __CPROVER_loop_entry(gh_node_own) && gh_n_slot_rmw == __CPROVER_loop_entry(gh_n_slot_rmw))
+#endif
+
 /* ---- awaiter::subscribe_check_ready(chain, ready_state): push unless the slot shows the ready marker --------------------------- */
 #ifdef CV_HAS_aw_subscribe_check_ready
 #define CV_LOOP_aw_subscribe_check_ready_0 \
